@@ -12,6 +12,49 @@ func wCountEvents(prefix string) int {
 	return n
 }
 
+// wTraceAsserts: the trace is consistent, whether or not the build failed: every start event is
+// closed by exactly one success or failure, and an "already" event refers to work that succeeded
+// earlier.
+func wTraceAsserts() {
+	verif.Assert("C14-every-source-start-has-one-end", wCountEvents("source-start") == wCountEvents("source-success")+wCountEvents("source-failure"))
+	verif.Assert("C14-every-versions-start-has-one-end", wCountEvents("versions-start") == wCountEvents("versions-success")+wCountEvents("versions-failure"))
+	for i, e := range wEvents {
+		if wHasPrefix(e, "source-already ") {
+			ok := false
+			for _, f := range wEvents[:i] {
+				if f == "source-success "+e[len("source-already "):] {
+					ok = true
+				}
+			}
+			verif.Assert("C14-already-only-after-success", ok)
+		}
+	}
+	verif.Assert("C14-every-download-start-has-one-end", wCountEvents("download-start") == wCountEvents("download-success")+wCountEvents("download-failure"))
+	for i, e := range wEvents {
+		if wHasPrefix(e, "download-already ") {
+			ok := false
+			for _, f := range wEvents[:i] {
+				if f == "download-success "+e[len("download-already "):] {
+					ok = true
+				}
+			}
+			verif.Assert("C14-already-only-after-success", ok)
+		}
+	}
+
+	for i, e := range wEvents {
+		if wHasPrefix(e, "versions-already ") {
+			ok := false
+			for _, f := range wEvents[:i] {
+				if f == "versions-success "+e[len("versions-already "):] {
+					ok = true
+				}
+			}
+			verif.Assert("C14-already-only-after-success", ok)
+		}
+	}
+}
+
 // HarnessBuild: nAdds Add calls (symbolic nodes, with repeats) on a world of nPkg packages where
 // every (node, finder) reports up to nDeps dependencies of symbolic kind and target.
 func HarnessBuild() {
@@ -24,6 +67,10 @@ func HarnessBuild() {
 	wSymMeta = verif.Param("symMeta", 0) == 1
 	wWarnOn = verif.Param("warn", 0) == 1
 	wTwoSets = verif.Param("twosets", 0) == 1
+	wFaults = verif.Param("faults", 0) == 1
+	wLeafPkgs = verif.Param("leaf", 0) == 1
+	wKindMask = verif.Param("kinds", 0)
+	failed := false
 	b, err := NewBuilder(wTarget, wFetcher{}, wRegistry{})
 	verif.Assume(err == nil)
 	ctx := wCtx{wTracer()}
@@ -34,7 +81,19 @@ func HarnessBuild() {
 		k := wFinderKey{n, verif.Choose("add.finder", wNFinders)}
 		adds = append(adds, k)
 		diags := b.AddRemoteSource(ctx, wSource(n), wFinder{k.node, k.kind})
-		verif.Assert("fault-free-build-reports-no-error", !diags.HasErrors())
+		if wFaults {
+			if diags.HasErrors() {
+				failed = true
+				break
+			}
+		} else {
+			verif.Assert("fault-free-build-reports-no-error", !diags.HasErrors())
+		}
+	}
+	wTraceAsserts()
+	if failed {
+		verif.Reach("failed-build") // with failures injected only the trace is judged
+		return
 	}
 	bundle, err := b.Close()
 	verif.Assert("close-succeeds", err == nil && bundle != nil)
@@ -76,33 +135,6 @@ func HarnessBuild() {
 	for k, n := range wRegSourceCalls {
 		verif.Assert("C14-no-other-version-address-requested", regs[k] && n == 1)
 	}
-	verif.Assert("C14-every-source-start-has-one-end", wCountEvents("source-start") == wCountEvents("source-success")+wCountEvents("source-failure"))
-	verif.Assert("C14-every-versions-start-has-one-end", wCountEvents("versions-start") == wCountEvents("versions-success")+wCountEvents("versions-failure"))
-	for i, e := range wEvents {
-		if wHasPrefix(e, "source-already ") {
-			ok := false
-			for _, f := range wEvents[:i] {
-				if f == "source-success "+e[len("source-already "):] {
-					ok = true
-				}
-			}
-			verif.Assert("C14-already-only-after-success", ok)
-		}
-	}
-	verif.Assert("C14-every-download-start-has-one-end", wCountEvents("download-start") == wCountEvents("download-success")+wCountEvents("download-failure"))
-	// "already" only after a success for the same package
-	for i, e := range wEvents {
-		if wHasPrefix(e, "download-already ") {
-			ok := false
-			for _, f := range wEvents[:i] {
-				if f == "download-success "+e[len("download-already "):] {
-					ok = true
-				}
-			}
-			verif.Assert("C14-already-only-after-success", ok)
-		}
-	}
-
 	// ---- C08: everything added or discovered can be looked up, inside the bundle, with its content
 	for k := range seen {
 		src := wSource(k.node)
